@@ -561,6 +561,62 @@ theorem render_post_target_ro (g : Grid) (hd : Handler) (hdl : Handle) (r : Req)
     · exact ⟨rfl, Or.inl rfl⟩
     · exact ⟨rfl, Or.inl rfl⟩
 
+/-! ### node cache -/
+
+/-- every cached node is the node its own key's cap string builds -/
+def CacheOK (g : Grid) (c : NodeCache) : Prop := ∀ k h, (k, h) ∈ c → h = capHandle g k.cap
+
+theorem cacheLookup_mem {c : NodeCache} {k : MemoKey} {h : Handle} (hl : cacheLookup c k = some h) :
+    (k, h) ∈ c := by
+  induction c with
+  | nil => simp [cacheLookup] at hl
+  | cons e rest ih =>
+    obtain ⟨k', h'⟩ := e
+    unfold cacheLookup at hl
+    split at hl
+    · rename_i heq
+      have hk : k' = k := by simpa using heq
+      cases hl
+      subst hk
+      exact List.mem_cons_self ..
+    · exact List.mem_cons_of_mem _ (ih hl)
+
+theorem createFromCap_ok (g : Grid) (c : NodeCache) (d : Bool) (cap : Cap) (hc : CacheOK g c) :
+    (createFromCap g c d cap).1 = capHandle g cap ∧ CacheOK g (createFromCap g c d cap).2 := by
+  unfold createFromCap
+  cases hl : cacheLookup c ⟨d, cap⟩ with
+  | some h => exact ⟨hc _ _ (cacheLookup_mem hl), hc⟩
+  | none =>
+    refine ⟨rfl, ?_⟩
+    simp only
+    split
+    · intro k h hm
+      rcases List.mem_cons.1 hm with heq | hm
+      · cases heq; rfl
+      · exact hc k h hm
+    · exact hc
+
+theorem evict_ok (g : Grid) (c : NodeCache) (keep) (hc : CacheOK g c) : CacheOK g (evict c keep) := by
+  intro k h hm
+  exact hc k h (List.mem_filter.1 hm).1
+
+theorem runCache_ok (g : Grid) (ops : List CacheOp) : ∀ c, CacheOK g c →
+    ∀ h ∈ runCache g c ops, ∃ cap, h = capHandle g cap := by
+  induction ops with
+  | nil => intro c _ h hm; simp [runCache] at hm
+  | cons op rest ih =>
+    intro c hc h hm
+    cases op with
+    | create d cap =>
+      have ho := createFromCap_ok g c d cap hc
+      simp only [runCache, List.mem_cons] at hm
+      rcases hm with rfl | hm
+      · exact ⟨cap, ho.1⟩
+      · exact ih _ ho.2 h hm
+    | collect keep =>
+      simp only [runCache] at hm
+      exact ih _ (evict_ok g c keep hc) h hm
+
 /-! ### renderers -/
 
 theorem children_ro (g : Grid) (h : Handle) (hw : h.w = false) : ∀ c ∈ children g h, c.w = false := by
